@@ -93,6 +93,19 @@ func (e *episode) knownMiner() ([]byte, uint64, []byte, byte, bool) {
 func genEpisode(r *hx.Rng, ip *interp, run func(string) string, n int, st *genStats) {
 	e := &episode{r: r, ip: ip, run: run, st: st}
 	h0 := uint64(r.Pick(12, 100, 100, 1000, 35999, 36000, 5000000))
+	// fork schedule of the session: mostly dev; a share under the mainnet / robin schedules beyond their last proposal
+	switch r.Intn(7) {
+	case 0:
+		run("config mainnet")
+		h0 = 69329000 + uint64(r.Intn(1000000))
+		st.inc("config-mainnet")
+	case 1:
+		run("config robin")
+		h0 = 84150000 + uint64(r.Intn(1000000))
+		st.inc("config-robin")
+	default:
+		run("config dev")
+	}
 	run(fmt.Sprintf("reset %d", h0))
 	// universe
 	nid := 3 + r.Intn(3)
